@@ -65,6 +65,9 @@ structure ApiSt where
   /-- group mode (`cfg … grp=M/T nvb=N`): the real `vBucketDiscovery` over the dynamic membership on the
       API's bus; `none` = the fake discovery of the other session streams -/
   grp : Option ApiGroup.GSt := none
+  /-- harness bookkeeping of `hold-next` … `release` (which answer `release` gets); not model state -/
+  holdArmed : Bool := false
+  holdInFlight : Bool := false
 deriving Repr, Inhabited
 
 def isApiCmd (c : String) : Bool :=
@@ -108,7 +111,10 @@ def apiPrepareOp (a : ApiSt) (ts : List String) : List String :=
 def apiAfterSessionOp (a : ApiSt) (ts : List String) (s s' : St) : ApiSt :=
   let gstep := fun (op : ApiGroup.GOp) => a.grp.map fun g => ApiGroup.step g op
   match ts with
-  | "cfg" :: args => { a with grp := parseGrpCfg args, info := none, hasStream := false }
+  | "cfg" :: args => { a with grp := parseGrpCfg args, info := none, hasStream := false, holdArmed := false, holdInFlight := false }
+  | [_, _, _, _, _, _, _] =>
+    -- a document event that was handed to the consumer while `hold-next` was armed is the call now in flight
+    if a.holdArmed && s'.ctxs.length > s.ctxs.length then { a with holdArmed := false, holdInFlight := true } else a
   | ["open"] => if s.isOpen then a else { a with info := none, hasStream := true, grp := gstep .openNew }
   | ["crash"] => { a with info := none, hasStream := false, grp := gstep .crash }
   | ["close"] => if s.isOpen then { a with grp := gstep .close } else a
@@ -130,6 +136,18 @@ def apiLine (a : ApiSt) (ts : List String) (real : Option String) : Option (ApiS
   let verdictOf := fun (f : String → String) => match real with | some r => f r | none => "-"
   if isApiCmd (ts.headD "") && !a.hasStream then some (a, "bad:no stream object", "-") else
   match ts with
+  | ["hold-next"] =>
+    -- `Api.stepMarked _ s .holdNext = s`: when a consumer call returns is not part of the session state; the counters
+    -- and gauges the model predicts must therefore not depend on it (`C16Api.api_hold_release_insensitive`)
+    if a.holdArmed || a.holdInFlight then some (a, "bad:already holding", "-")
+    else some ({ a with holdArmed := true }, "ok", "-")
+  | ["release"] =>
+    -- no model state changes either (`Api.stepMarked _ s .release = s`); nothing is observable when the call returns
+    if a.holdInFlight then
+      some ({ a with holdInFlight := false }, "released",
+        verdictOf fun r => if r == "released" then "ok" else "FAIL C16.held-call-return-observable")
+    else if a.holdArmed then some ({ a with holdArmed := false }, "disarmed", "-")
+    else some (a, "bad:nothing held", "-")
   | ["ping-fail", b] =>
     if b == "0" || b == "1" then some ({ a with pingFails := b == "1" }, "ok", "-") else some (a, "bad-op", "-")
   | ["api-status"] =>
